@@ -231,13 +231,17 @@ def encoder_call_obligations(pr):
                           '    if list(json.loads(t)) != ["a", "b"] or list(json.loads(t)["a"]) != ["c", "d"]:\n'
                           '        bad.append([indent, t])\n'
                           'result = {"violates": bool(bad), "observed": bad[:2]}\n')
+        def verdict(name, want):
+            # a literal decides; an option computed at run time is undecided here, not a violation
+            if name in kw and not isinstance(kw[name], ast.Constant):
+                return 'unknown'
+            return 'unsat' if const(name) is want else 'sat'
         ok = const('sort_keys') is True
-        pr.add_obligation(f'C14.encoder.{where}.sorts-keys', 'unsat' if ok else 'sat', 'syntactic', 0.0, function='value.value_json',
+        pr.add_obligation(f'C14.encoder.{where}.sorts-keys', verdict('sort_keys', True), 'syntactic', 0.0, function='value.value_json',
                           detail='sort_keys=True is required for "object keys in sorted order" and for equal objects to serialise equally',
-                          inputs=None if ok else {'value': {'b': 1, 'a': {'d': 1, 'c': 2}}},
-                          replay=None if ok else (lambda res: {'reproduced': bool(res.get('violates')), 'observed': res})(run_witness(witness_sorted)))
-        ok = const('allow_nan') is False
-        pr.add_obligation(f'C14.encoder.{where}.rejects-non-finite-numbers', 'unsat' if ok else 'sat', 'syntactic', 0.0,
+                          inputs=None if verdict('sort_keys', True) != 'sat' else {'value': {'b': 1, 'a': {'d': 1, 'c': 2}}},
+                          replay=None if verdict('sort_keys', True) != 'sat' else (lambda res: {'reproduced': bool(res.get('violates')), 'observed': res})(run_witness(witness_sorted)))
+        pr.add_obligation(f'C14.encoder.{where}.rejects-non-finite-numbers', verdict('allow_nan', False), 'syntactic', 0.0,
                           function='value.value_json', detail='allow_nan=False keeps NaN/Infinity (not JSON) out of the text')
         seps = kw.get('separators')
         try:
